@@ -118,6 +118,8 @@ class SourceModel:
                 with warnings.catch_warnings():
                     warnings.simplefilter('ignore')
                     tree = ast.parse(src, filename=str(p))
+                    from .normalize import canonicalize_module
+                    tree = canonicalize_module(tree)
             except SyntaxError as e:
                 raise AnalysisError('S', f'{p} does not parse: {e}')
             self.modules[name] = ModuleInfo(name, p, tree, src, is_pkg)
